@@ -3605,3 +3605,52 @@ Proof.
   destruct e as [x|]; [exact R|]. destruct R as (R1 & R2 & R3).
   split; [exact R1|]. split; [exact R2|eapply aj_frame_trans; eauto].
 Qed.
+
+Lemma adjustHeights_spec fuel s oC oP s' e :
+  AStat s -> HInv (fun m q => m = oC /\ q = oP) noEx s -> inGraph (nd s oC) = true -> oC <> oP ->
+  adjustHeights fuel s oC oP = Ok (s', e) ->
+  match e with
+  | None => HInv noEx noEx s' /\ a_num (adj s') <= 0 /\ aj_frame s s'
+  | Some x => adj_err x
+  end.
+Proof.
+  intros St HI Hg Hne H. unfold adjustHeights in H.
+  set (s0 := s <| adj := adj s <| a_lower := height (nd s oC) |> |>) in *.
+  assert (F0 : aj_frame s s0).
+  { split; try reflexivity. intros m. repeat split. }
+  assert (HI0 : HInv (fun m q => m = oC /\ q = oP) noEx s0).
+  { destruct HI as [A B C D E G]. constructor; auto. destruct G as [G1 G2 G3]. split; auto. }
+  apply ebind_inv in H as (s1 & e1 & H1 & Hrest).
+  pose proof (ensure_spec _ _ s0 oP oC oP s1 e1 HI0 Hg Hne H1) as E.
+  destruct e1 as [x|].
+  { destruct Hrest as [[? _]|(_ & _ & ->)]; [discriminate|exact E]. }
+  destruct Hrest as [[_ H]|(Hne' & _)]; [|congruence].
+  destruct E as (E1 & E2 & _).
+  assert (F01 : aj_frame s s1) by (eapply aj_frame_trans; eauto).
+  assert (HI1 : HInv noEx noEx s1).
+  { eapply HInv_weaken; [| |exact E1].
+    - intros m q _ _ [[-> ->] Hn]. apply Hn. auto.
+    - intros m q _ _ [[] _]. }
+  pose proof (adjustLoop_spec fuel s1 oP s' e (AStat_frame s s1 F01 St) HI1 H) as R.
+  destruct e as [x|]; [exact R|]. destruct R as (R1 & R2 & R3).
+  split; [exact R1|]. split; [exact R2|eapply aj_frame_trans; eauto].
+Qed.
+
+(** when the adjust-heights heap is empty again, [HInv] is the plain height and heap clauses *)
+Lemma HInv_done s : HInv noEx noEx s -> a_num (adj s) <= 0 ->
+  (forall m, hAdj (nd s m) = unset) /\ a_num (adj s) = 0 /\ Forall (fun q => q = []) (a_byHeight (adj s)) /\
+  height_ok s /\ heap_ok s.
+Proof.
+  intros [A B C D [E1 E2] [G1 G2 G3]] Hle.
+  assert (Hids : adj_ids s = []).
+  { destruct (adj_ids s) as [|x l] eqn:E; [reflexivity|]. rewrite G2 in Hle. simpl in Hle. lia. }
+  assert (Hj : forall m, hAdj (nd s m) = unset).
+  { intros m. destruct (decide (hAdj (nd s m) = unset)) as [|Hn]; [assumption|].
+    apply G3 in Hn. rewrite Hids in Hn. inversion Hn. }
+  split; [exact Hj|]. split; [rewrite G2, Hids; reflexivity|]. split; [apply adj_ids_nil_inv, Hids|]. split.
+  - intros m Hm. split; [apply A, Hm|]. split.
+    + intros p Hp. apply B; auto. intros [].
+    + unfold scopeHeight. destruct (scope (nd s m)) as [b|] eqn:Eb; [|destruct (A m Hm); unfold unset; lia].
+      apply C; auto. intros [].
+  - split; [exact E1|]. intros n Hn. destruct (E2 n Hn) as [Hg Hh]. split; [exact Hg|apply Hh, Hj].
+Qed.
